@@ -20,16 +20,18 @@ type crashConfig struct {
 	sync    bool
 	clients int
 	txns    int
+	// manifestRewrite lowers the MANIFEST rewrite threshold in the workload child
+	manifestRewrite int
 }
 
 func crashConfigs(c *core.Ctx) []crashConfig {
 	all := []crashConfig{
-		{"base+deletes", 0, "deletes", false, 4, 110},
-		{"aes128+gc", 3, "gc", false, 4, 110},
-		{"syncwrites+plain", 7, "plain", true, 4, 70},
-		{"snappy+deletes", 1, "deletes", false, 5, 90},
-		{"keepInf+gc", 6, "gc", false, 4, 90},
-		{"zstd+levels7+deletes", 2, "deletes", false, 4, 120},
+		{"base+deletes+manifest-rewrites", 0, "deletes", false, 4, 110, 6},
+		{"aes128+gc", 3, "gc", false, 4, 110, 0},
+		{"syncwrites+plain", 7, "plain", true, 4, 70, 0},
+		{"snappy+deletes", 1, "deletes", false, 5, 90, 0},
+		{"keepInf+gc+manifest-rewrites", 6, "gc", false, 4, 90, 10},
+		{"zstd+levels7+deletes", 2, "deletes", false, 4, 120, 0},
 	}
 	if c.Thorough() {
 		return all
@@ -43,7 +45,7 @@ func newCrashSpec(c *core.Ctx, work string, cfg crashConfig, idx int, name strin
 	_ = os.MkdirAll(filepath.Join(dir, "db"), 0o755)
 	r := c.Rand(fmt.Sprintf("crash-%s-%d", cfg.name, idx))
 	s := &CrashSpec{Dir: filepath.Join(dir, "db"), Variant: cfg.variant, OptSeed: r.Int63(), Seed: r.Int63(), Family: cfg.family,
-		Clients: cfg.clients, Txns: cfg.txns, SideLog: filepath.Join(dir, "side.log"), EndMode: "kill", SyncWrites: cfg.sync, Compactors: 2, MemTable: 12 << 10}
+		Clients: cfg.clients, Txns: cfg.txns, SideLog: filepath.Join(dir, "side.log"), EndMode: "kill", SyncWrites: cfg.sync, Compactors: 2, MemTable: 12 << 10, ManifestRewrite: cfg.manifestRewrite}
 	ov := hist.SmallOptions(s.Dir, s.Variant, c.Rand("k"))
 	if n := len(ov.Opt.EncryptionKey); n > 0 {
 		s.EncKey = make([]byte, n)
@@ -138,7 +140,7 @@ func tailStr(s string, n int) string {
 // C08 a crash at any point recovers a commit prefix holding every acknowledged commit.
 func C08(c *core.Ctx) {
 	c.Rule("a workload child (3-4 transaction clients with 1-4 writes + a private marker key each, Commit/CommitWith, one WriteBatch client on write-once keys; 16-64 KiB memtables, " +
-		"2 compactors, value-log rotation every 50 entries; families: deletes, GC loop without deletes, SyncWrites) logs issue/ack/commit-timestamp lines outside the database; a " +
+		"2 compactors, value-log rotation every 50 entries, the production MANIFEST rewrite run every 6-10 ms in one configuration; families: deletes, GC loop without deletes, SyncWrites) logs issue/ack/commit-timestamp lines outside the database; a " +
 		"counting run records the sequence of hook events (persistence events + schedule points); then one child per chosen event number is SIGKILLed at that event (first, last and " +
 		"random occurrences of every event class + uniformly random events) and, second source, by strace-injected SIGKILL on entry to the N-th unlinkat/ftruncate/renameat/msync " +
 		"syscall (multi-step file operations inside ristretto); a verifier child re-opens the directory twice and dumps it; oracle: Open succeeds, recovered set S (visible markers) " +
@@ -190,7 +192,11 @@ func C08(c *core.Ctx) {
 		}
 		// strace: kill on entry to the N-th syscall of a class (N counts per thread)
 		for _, sc := range []string{"unlinkat", "ftruncate", "renameat", "msync"} {
-			for _, n := range straceNs(c) {
+			ns := straceNs(c)
+			if sc == "renameat" && cfg.manifestRewrite > 0 {
+				ns = append(append([]int{}, ns...), 4, 6, 7, 8, 9) // rewrites rename often: more kill positions inside them
+			}
+			for _, n := range ns {
 				jobs = append(jobs, job{cfg: cfg, idx: 0, name: fmt.Sprintf("s%d-%s-%d", ci, sc, n), src: "strace:" + sc,
 					prefix: []string{"strace", "-f", "-o", "/dev/null", "-e", "trace=" + sc, "-e", fmt.Sprintf("inject=%s:signal=SIGKILL:when=%d", sc, n)}})
 			}
